@@ -44,6 +44,17 @@ fn catalogue(seed: u64, tier: &str) -> Vec<Value> {
     take("c14", &["map"], 2 * k);
     take("c11", &["pairl"], 4 * k);
     take("c12", &["ferel"], 1 * k);
+    // instances that share part of their input (same message and tag, other expander / field / suite)
+    for sess in generate("c13", seed, "quick").into_iter().chain(generate("c06", seed, "quick").into_iter()) {
+        for op in sess {
+            let c = op["cls"].as_str().unwrap_or("");
+            if c == "same-input-other-expander" || c == "same-input-other-suite" {
+                if op["g"] != "G2" {
+                    v.push(op.clone());
+                }
+            }
+        }
+    }
     v
 }
 
@@ -122,6 +133,19 @@ pub fn run(seed: u64, tier: &str, out: &str) {
     for i in (0..n).rev() {
         seq0 += 1;
         emit(&json!({"op": "ret", "t": 0, "seq": seq0, "inst": i, "val": insts[i](), "panic": false, "cls": "sequential-reversed"}));
+    }
+    // (2b) sequential, three more pseudo-random orders: other adjacencies for history-dependent state
+    for round in 0..3u64 {
+        let mut rr = Rng(seed ^ (0xabcd + round));
+        let mut order: Vec<usize> = (0..n).collect();
+        for i in (1..n).rev() {
+            let j = rr.below(i as u64 + 1) as usize;
+            order.swap(i, j);
+        }
+        for i in order {
+            seq0 += 1;
+            emit(&json!({"op": "ret", "t": 0, "seq": seq0, "inst": i, "val": insts[i](), "panic": false, "cls": "sequential-permuted"}));
+        }
     }
     // (3) concurrent: every thread its own permutation, several rounds
     let threads = 16;
